@@ -6,6 +6,7 @@ Copyright 2020 William W. Kimball, Jr. MBA MSIS
 import re
 from datetime import datetime, date, timedelta, timezone
 from ast import literal_eval
+from decimal import Decimal
 from typing import Any, Optional
 
 from dateutil import parser
@@ -351,6 +352,11 @@ class Nodes:
         """
         minus_sign = "-" if value < 0.0 else None
         strval = format(value, '.15f').rstrip('0').rstrip('.')
+        if float(strval) != value:
+            # 15 decimals cannot hold this value (a small magnitude or more
+            # significant digits than that); write every digit of its
+            # shortest exact text lest the value be changed (1e-16 as 0.0)
+            strval = format(Decimal(repr(value)), 'f')
         if "." not in strval:
             # A whole number must keep its fraction lest it be emitted with
             # the wrong magnitude (100.0 as 10.00) or as an unloadable
